@@ -158,6 +158,8 @@ def cli_args(kw):
 
 
 def run_shard(ctx):
+    from vlib import docprop
+    docprop.run_source('')     # scratch files (sed file, definition files) for \\LTinput & Co.
     os.chdir(sut.scratch_dir())
     rnd = random.Random(ctx.shard_seed)
     # (b) malformed inputs
